@@ -1,11 +1,11 @@
-(** * [kmp_short_nodup] is FALSE: kmpDeduplicate can return the two-vertex "line" [p; p].
+(** * [kmp_short_nodup] is FALSE of kmpDeduplicate: it can return the two-vertex "line" [p; p] (finding F14).
 
-    The premise that the C05 theorems carried,
+    The premise that the C05 theorems used to carry,
       [forall r r', no_adj_dup r -> kmpDeduplicate r = Ok r' -> (length r' < 3)%nat -> NoDup r'],
     is refuted by a chain of 75 vertices over three pixel centres without two equal cyclic neighbours
-    ([w75], found by a search on the Go code through the hook [snap.VerifKmpDeduplicate], replayed on
-    [snap.SnapPolygon]: with keep-points-and-lines the polygon [[ring75]] on a 16 x 16 grid is returned
-    as the single "line" [(8.5 8.5) (8.5 8.5)]).
+    ([w75], found by a search on the Go code through the hook [snap.VerifKmpDeduplicate]; before the repair
+    [snap.SnapPolygon] with keep-points-and-lines returned the polygon [[ring75]] on a 16 x 16 grid as the
+    single "line" [(8.5 8.5) (8.5 8.5)]).
 
     Mechanism (two detections, [kmpDedupLoop] records [(0, 40)] and [(41, 74)]):
     - the first step back is found at i = 6 with the segment r[0..6) = B A C B A C; its reverse occurs
@@ -18,12 +18,17 @@
       keeps [segment ++ reverse] = r[36..41) and records [41, 74); r[36..40) lies inside the first range,
       so of the five kept vertices only r[40] = C survives — together with the tail r[74] = C.
     Nothing is kept between two vertices that were never neighbours: output [C; C].
+    With the same overshoot the spike removal can delete EVERY vertex ([kmp_empty_output]).
 
-    With the same overshoot the spike removal can delete EVERY vertex ([kmp_empty_output]). *)
+    REPAIR (fix commit in /repo, mirrored in Snap/Model.v [trimClosing]): cleanupNewRing drops the closing
+    vertex again AFTER kmpDeduplicate, in a loop ([for len > 1 && ring[0] == ring[len-1]]): what reaches
+    asPointOrLine then has one vertex or two different ones BY CONSTRUCTION (ProofsLevel.trimClosing_short_NoDup),
+    whatever kmpDeduplicate returns — a single [if] would leave [a; a] from an output [a; a; a], which nothing
+    proved about kmpDeduplicate excludes.  The statements about kmpDeduplicate below remain true; the
+    end-to-end witness is kept as a regression ([F14_regression]). *)
 From Coq Require Import ZArith List Bool Lia.
-From Texel Require Import Prelude.Base Index.Model Index.ProofsRouting Snap.Model Snap.ProofsBasics
-  Snap.ProofsSplit Snap.ProofsSplitThms Snap.ProofsKmpSearch Snap.ProofsKmpEnum Snap.ProofsLevelRoute
-  Snap.ProofsLevel Snap.ProofsLevelThms Snap.ProofsLevelC07 Snap.ProofsLevelJoin Snap.ProofsJoinC05.
+From Texel Require Import Prelude.Base Index.Model Snap.Model Snap.ProofsBasics
+  Snap.ProofsKmpSearch Snap.ProofsKmpEnum.
 Import ListNotations.
 Open Scope Z_scope.
 
@@ -68,7 +73,7 @@ Proof.
   intro ND. inversion ND as [| x l Hn _]. subst. apply Hn. left. reflexivity.
 Qed.
 
-(** ... so the premise as it was stated for all rings cannot be assumed: a theorem that carries it is vacuous *)
+(** ... so the premise as it was stated for all rings could not be assumed: a theorem that carried it was vacuous *)
 Corollary kmp_short_nodup_premise_false :
   ~ (forall r r', no_adj_dup r -> kmpDeduplicate r = Ok r' -> (length r' < 3)%nat -> NoDup r').
 Proof.
@@ -89,115 +94,20 @@ Proof.
   split; [vm_compute; lia |]. split; vm_compute; reflexivity.
 Qed.
 
-(** ** end to end, at the level of snapPolygon: the conclusion of [C05_rings_well_formed] fails on an
-       in-grid ring for which every OTHER hypothesis of [snap_rings_well_formed] and of
-       [snap_rings_well_formed_closed] holds (grid with positive resolution whose extent covers its
-       pixels, requested level within the index, insertPolygon succeeds, routing premises true).
-       16 x 16 pixels of size 2; A = (9,9) B = (17,9) C = (17,17) are pixel centres. *)
+(** ** end to end, regression of F14: 16 x 16 pixels of size 2; A = (9,9) B = (17,9) C = (17,17) are pixel
+       centres.  The ring that used to come back as the line [(17,17); (17,17)] collapses to the point (17,17),
+       returned with keep-points-and-lines and dropped without. *)
 Definition g16 : grid := mkGrid (mkExtent 0 0 32 32) 2 4.
 Definition Q3 (n : nat) : pt := match n with 0%nat => (9, 9) | 1%nat => (17, 9) | _ => (17, 17) end.
 Definition ring75 : ring := map Q3 w75.
 
-Lemma ring75_snapped :
-  snapPolygon g16 [ring75] [4%nat] (mkConfig true false false) = Ok [(4%nat, [[[(17, 17); (17, 17)]]])].
-Proof. vm_compute. reflexivity. Qed.
-
-Theorem snap_repeat_free_refuted : exists g P levels cfg r hs,
-  0 < gres g /\ RootCovers g /\ (forall L, In L levels -> (L <= gdeep g)%nat) /\
-  insertPolygon g P = Ok hs /\
-  (forall L idx r0, In L levels -> nth_error P idx = Some r0 ->
-     routing_ok g (hotLevels g hs) L (ensureCorrectWindingOrder r0 (negb (Nat.eqb idx 0)))) /\
-  snapPolygon g P levels cfg = Ok r /\
-  exists L ps poly x, In (L, ps) r /\ In poly ps /\ In x poly /\ ~ NoDup x.
-Proof.
-  destruct (insertPolygon g16 [ring75]) as [hs |] eqn:E; [| vm_compute in E; discriminate].
-  exists g16, [ring75], [4%nat], (mkConfig true false false), [(4%nat, [[[(17, 17); (17, 17)]]])], hs.
-  split; [reflexivity |]. split; [vm_compute; repeat split; discriminate |].
-  split; [intros L [<- | []]; cbn [gdeep g16]; lia |].
-  split; [exact E |]. split.
-  - apply all_routing_okb_sound. vm_compute in E. inversion E. vm_compute. reflexivity.
-  - split; [exact ring75_snapped |].
-    exists 4%nat, [[[(17, 17); (17, 17)]]], [[(17, 17); (17, 17)]], [(17, 17); (17, 17)].
-    split; [left; reflexivity |]. split; [left; reflexivity |]. split; [left; reflexivity |].
-    intro ND. inversion ND as [| x l Hn _]. subst. apply Hn. left. reflexivity.
-Qed.
-
-(** ** what IS true without any premise about kmpDeduplicate: a returned ring visits no vertex twice,
-       or it is such a two-vertex line [p; p].  (Rings of three or more vertices come out of splitRing,
-       one-vertex rings are trivially repeat-free; only the two-vertex output of kmpDeduplicate is
-       not controlled.) *)
-Definition nodup_or_pp (x : ring) : Prop := NoDup x \/ exists p, x = [p; p].
-
-Lemma nodup_or_pp_rev x : nodup_or_pp x -> nodup_or_pp (rev x).
-Proof. intros [H | [p ->]]; [left; apply NoDup_rev, H | right; exists p; reflexivity]. Qed.
-
-Lemma short_nodup_or_pp (x : ring) : (length x < 3)%nat -> nodup_or_pp x.
-Proof.
-  destruct x as [| a [| b [| c t]]]; cbn [length]; intro Hl; try lia.
-  - left. constructor.
-  - left. constructor; [intros [] | constructor].
-  - destruct (pt_dec a b) as [-> | N]; [right; exists b; reflexivity |].
-    left. constructor; [intros [E | []]; congruence | constructor; [intros [] | constructor]].
-Qed.
-
-Theorem cleanup_repeat_free_partial nr o m sets :
-  no_adj_lin nr ->
-  (forall p, (2 <= count_occ pt_dec (dropClosing nr) p)%nat -> m p = true) ->
-  cleanupNewRing nr o m = Ok sets -> Forall nodup_or_pp (rings_of_sets sets).
-Proof.
-  intros Hn Hfl H. rewrite Forall_forall.
-  destruct (cleanup_cases _ _ _ _ H) as [[Hl ->] | [r2 [Hl [Hk [[Hl2 ->] | [_ Hs]]]]]]; intros x Hx.
-  - apply small_sets_rings in Hx. destruct Hx as [-> _]. left.
-    apply dropClosing_no_adj_lin in Hn. destruct (dropClosing nr) as [| a [| b [| c t]]]; cbn [length] in Hl; try lia.
-    + constructor.
-    + constructor; [intros [] | constructor].
-    + constructor; [| constructor; [intros [] | constructor]].
-      intros [E | []]. apply (no_adj_lin_head _ _ _ Hn). auto.
-  - apply small_sets_rings in Hx. destruct Hx as [-> _]. apply short_nodup_or_pp, Hl2.
-  - left. pose proof (split_repeat_free r2 o m sets) as Hr. rewrite Forall_forall in Hr. apply Hr; try assumption.
-    intros p Hp. apply Hfl. pose proof (subseq_count_occ pt_dec _ _ p (kmp_subseq_joined _ _ Hk)). lia.
-Qed.
-
-Theorem level_repeat_free_partial g hots P cfg L ps :
-  (forall idx r, nth_error P idx = Some r ->
-                 routing_ok g hots L (ensureCorrectWindingOrder r (negb (Nat.eqb idx 0)))) ->
-  snapLevel g hots P cfg L = Ok (Some ps) -> Forall (Forall nodup_or_pp) ps.
-Proof.
-  intros Hrt H. apply (level_lift nodup_or_pp g hots P cfg L ps); [exact nodup_or_pp_rev | | exact H].
-  intros acc Hl.
-  apply (ringsLoop_rings g hots L cfg nodup_or_pp (fun k st => forall id, (k <= id)%nat -> hits_fresh st id) P acc);
-    [| | exact Hl].
-  - intros idx r st nr st' sets Hnth Hj Hr Hc.
-    destruct (routeOf_facts _ _ _ _ _ _ _ _ Hr) as [_ [Hother Hok]].
-    destruct (Hok (Hrt idx r Hnth) (Hj idx (le_n _))) as [Hadj Hfl].
-    split.
-    + intros id Hid. apply Hother; [lia | apply Hj; lia].
-    + apply (cleanup_repeat_free_partial nr _ _ sets Hadj Hfl Hc).
-  - intros id _ p. split; reflexivity.
-Qed.
-
-(** at the level of snapPolygon, routing premises discharged from C02 as in [snap_rings_well_formed_closed]:
-    every returned ring is repeat-free (and then last <> first, no equal neighbours) or is a line [p; p] *)
-Theorem snap_rings_well_formed_partial g P levels cfg r :
-  0 < gres g -> RootCovers g -> (forall L, In L levels -> (L <= gdeep g)%nat) ->
-  snapPolygon g P levels cfg = Ok r ->
-  forall L ps poly x, In (L, ps) r -> In poly ps -> In x poly ->
-    (NoDup x /\ ((2 <= length x)%nat -> hd dp x <> last x dp /\ no_adj_dup x)) \/ exists p, x = [p; p].
-Proof.
-  intros Hr C HLs H L ps poly x Hin Hpoly Hx.
-  destruct (insertPolygon g P) as [hs | e] eqn:Hi.
-  - destruct (level_value _ _ _ _ _ _ _ H Hin) as [hs' [Hi' [HL Hl]]]. rewrite Hi in Hi'. inversion Hi'; subst hs'.
-    pose proof (level_repeat_free_partial g (hotLevels g hs) P cfg L ps
-                  (fun idx r0 => routing_premise_closed g P hs levels Hr C Hi HLs L idx r0 HL) Hl) as F.
-    rewrite Forall_forall in F. specialize (F poly Hpoly). rewrite Forall_forall in F.
-    destruct (F x Hx) as [ND | Hpp]; [left; exact (NoDup_well_formed x ND) | right; exact Hpp].
-  - exfalso. unfold snapPolygon in H. rewrite Hi in H.
-    destruct e; try discriminate. destruct (ignoreOutsideGrid cfg); [| discriminate].
-    injection H as <-. destruct Hin.
-Qed.
+Example F14_regression :
+  snapPolygon g16 [ring75] [4%nat] (mkConfig true false false) = Ok [(4%nat, [[[(17, 17)]]])] /\
+  snapPolygon g16 [ring75] [4%nat] (mkConfig false false false) = Ok [] /\
+  cleanupNewRing (chain w75) true (fun _ => true) = Ok (mkSets [] [] [[(1, 1)]]) /\
+  cleanupNewRing (chain w80) true (fun _ => true) = Ok (mkSets [] [] []).
+Proof. vm_compute. repeat split; reflexivity. Qed.
 
 Print Assumptions kmp_short_nodup_refuted.
 Print Assumptions kmp_short_nodup_premise_false.
 Print Assumptions kmp_empty_output.
-Print Assumptions snap_repeat_free_refuted.
-Print Assumptions snap_rings_well_formed_partial.
